@@ -269,10 +269,13 @@ impl WmoParser {
         let n_doodad_defs = reader.read_u32_le()?;
         let n_doodad_sets = reader.read_u32_le()?;
         let color_bytes = reader.read_u32_le()?;
-        let flags = WmoFlags::from_bits_truncate(reader.read_u32_le()?);
 
-        // Skip some fields (depending on version)
-        reader.seek(SeekFrom::Current(8))?; // Skip bounding box - we'll calculate this from groups
+        // +0x20: wmoID, +0x24: bounding box (24 bytes, recalculated from the groups)
+        reader.seek(SeekFrom::Current(4 + 24))?;
+
+        // +0x3C: flags (u16), +0x3E: numLod (u16)
+        let flags = WmoFlags::from_bits_truncate(reader.read_u16_le()? as u32);
+        let _num_lod = reader.read_u16_le()?;
 
         // Create color from bytes
         let ambient_color = Color {
